@@ -131,6 +131,20 @@ CHECKS = {
         technique="Lean 4 proof over generated model + exact correspondence + exact-binomial oracle",
         design="6/C11",
     ),
+    "C12": dict(
+        text=("20 theorems: the pair construction is exactly the documented one (control vs every other variant in "
+              "sorted order; all pairs with the smaller id as control; no duplicates; a single result iff exactly one "
+              "pair, raise otherwise); the OR-merged request covers every statistic every metric declares (covariance "
+              "pairs up to order) for any list of metrics; analysis_frame: the GENERATED Mean/RatioOfMeans analysis is a "
+              "function of the declared statistics only (incl. the pooled a+b), so an entry cannot depend on other "
+              "metrics. Tie: correspondence of Model/Experiment.lean with the real Experiment (pairs/raise, declared "
+              "columns); search: entry vs metric analysed alone, custom metrics receive what they declared, order, "
+              "solve_power."),
+        note=NOTE_COMMON + "Model/Experiment.lean is hand-written. The stand-alone clause for SampleRatio / resampling / "
+             "user-defined metrics is checked on the real code, not proved.",
+        technique="Lean 4 proof (hand model + generated analysis) + correspondence",
+        design="6/C12",
+    ),
 }
 
 PENDING_REASON = "check not implemented yet in this round (see DESIGN.md section 6 for the planned model and theorems)"
